@@ -8,11 +8,14 @@ import (
 	"errors"
 	"net"
 	"sync"
+	"sync/atomic"
 	"time"
 
 	pb "github.com/marekgalovic/anndb/protobuf"
 	uuid "github.com/satori/go.uuid"
 	"google.golang.org/grpc"
+	"google.golang.org/grpc/codes"
+	"google.golang.org/grpc/status"
 )
 
 type Item struct {
@@ -85,6 +88,8 @@ func (n *Node) Release() {
 }
 
 // gate: returns the error the call should fail with (nil = proceed).
+var errKind uint32
+
 func (n *Node) gate(ctx context.Context, what string) error {
 	n.mu.Lock()
 	rel, outcome := n.release, n.Outcome
@@ -103,6 +108,16 @@ func (n *Node) gate(ctx context.Context, what string) error {
 		return ctx.Err()
 	}
 	if outcome == "err" {
+		// a failing worker fails in one of the ways a real one can: a plain handler error, or a transport-level status
+		// (the node is going away, overloaded, too slow) - whatever the code, the caller must not go on without it
+		switch atomic.AddUint32(&errKind, 1) % 4 {
+		case 1:
+			return status.Error(codes.Unavailable, "scripted failure: unavailable")
+		case 2:
+			return status.Error(codes.DeadlineExceeded, "scripted failure: deadline exceeded")
+		case 3:
+			return status.Error(codes.ResourceExhausted, "scripted failure: resource exhausted")
+		}
 		return errors.New("scripted failure")
 	}
 	return nil
